@@ -884,19 +884,24 @@ func sortedKeys(m map[string]bool) []string {
 func (im *impl) litCase(r *common.Rand, v *val, bs []varBinding, withL3 bool) string {
 	used := map[string]bool{}
 	collectVars(v, used)
-	names := sortedKeys(used)
-	var sb strings.Builder
-	sb.WriteString("query" + varDecls(names, "Any") + " { f(a: ")
-	v.source(r, &sb)
-	sb.WriteString(") }")
-	q := sb.String()
 	var keep []varBinding
 	for _, b := range bs {
 		if used[b.name] {
 			keep = append(keep, b)
 		}
 	}
-	cv := clientVariables(r, keep)
+	return im.litCaseCV(r, v, clientVariables(r, keep), keep, withL3)
+}
+
+func (im *impl) litCaseCV(r *common.Rand, v *val, cv string, keep []varBinding, withL3 bool) string {
+	used := map[string]bool{}
+	collectVars(v, used)
+	names := sortedKeys(used)
+	var sb strings.Builder
+	sb.WriteString("query" + varDecls(names, "Any") + " { f(a: ")
+	v.source(r, &sb)
+	sb.WriteString(") }")
+	q := sb.String()
 	l3 := "(l3 skip)"
 	if withL3 {
 		l3 = im.level3(q, cv)
@@ -964,10 +969,6 @@ func (im *impl) fwdCase(r *common.Rand) string {
 // (dflt <wraps> <default value> (vars ..) (src q) (cv ..) l2 l3): variable default values
 func (im *impl) dfltCase(r *common.Rand) string {
 	wraps := r.Pick(2)
-	ty := "Any"
-	if wraps == 1 {
-		ty = "[Any]"
-	}
 	var dv *val
 	if r.Chance(1, 4) {
 		dv = &val{k: kNull}
@@ -978,6 +979,14 @@ func (im *impl) dfltCase(r *common.Rand) string {
 	if wraps == 1 && b.state == 2 && !strings.HasPrefix(b.json, "[") {
 		b.json = "[" + b.json + "]"
 	}
+	return im.dfltCaseCV(r, wraps, dv, clientVariables(r, []varBinding{b}), []varBinding{b})
+}
+
+func (im *impl) dfltCaseCV(r *common.Rand, wraps int, dv *val, cv string, bs []varBinding) string {
+	ty := "Any"
+	if wraps == 1 {
+		ty = "[Any]"
+	}
 	var sb strings.Builder
 	sb.WriteString("query($v0: " + ty + " = ")
 	dv.source(r, &sb)
@@ -987,8 +996,7 @@ func (im *impl) dfltCase(r *common.Rand) string {
 		sb.WriteString(") { f(a: $v0) }")
 	}
 	q := sb.String()
-	cv := clientVariables(r, []varBinding{b})
-	return common.L("dflt", common.I(wraps), dv.sexp(), bindingsSexp([]varBinding{b}), common.L("src", common.QS(q)), common.L("cv", common.QS(cv)),
+	return common.L("dflt", common.I(wraps), dv.sexp(), bindingsSexp(bs), common.L("src", common.QS(q)), common.L("cv", common.QS(cv)),
 		im.level2(q, cv), im.level3(q, cv))
 }
 
@@ -1018,9 +1026,148 @@ func genRawLit(r *common.Rand) string {
 
 // ---------------------------------------------------------------------------- corpus
 
-// corpus line:  lit<TAB>"<literal source>"<TAB>"<client variables>"    (Go-quoted strings)
-//               dflt<TAB>"<type>"<TAB>"<default literal source>"<TAB>"<client variables>"
-func (im *impl) corpusLine(line string) (string, bool) {
+// minimal reader for the value S-expressions this program writes: (kind "bytes with \xx escapes" ...)
+type sx struct {
+	atom  string
+	str   []byte
+	isStr bool
+	list  []*sx
+}
+
+func parseSx(s string, i *int) *sx {
+	for *i < len(s) && (s[*i] == ' ' || s[*i] == '\t') {
+		*i++
+	}
+	if *i >= len(s) {
+		return nil
+	}
+	switch s[*i] {
+	case '(':
+		*i++
+		n := &sx{}
+		for {
+			for *i < len(s) && s[*i] == ' ' {
+				*i++
+			}
+			if *i >= len(s) {
+				return nil
+			}
+			if s[*i] == ')' {
+				*i++
+				return n
+			}
+			c := parseSx(s, i)
+			if c == nil {
+				return nil
+			}
+			n.list = append(n.list, c)
+		}
+	case '"':
+		*i++
+		n := &sx{isStr: true}
+		hex := func(c byte) byte {
+			switch {
+			case c >= '0' && c <= '9':
+				return c - '0'
+			case c >= 'a' && c <= 'f':
+				return c - 'a' + 10
+			}
+			return c - 'A' + 10
+		}
+		for *i < len(s) && s[*i] != '"' {
+			if s[*i] == '\\' && *i+2 < len(s) {
+				n.str = append(n.str, hex(s[*i+1])<<4|hex(s[*i+2]))
+				*i += 3
+				continue
+			}
+			n.str = append(n.str, s[*i])
+			*i++
+		}
+		*i++
+		return n
+	}
+	st := *i
+	for *i < len(s) && s[*i] != ' ' && s[*i] != '(' && s[*i] != ')' {
+		*i++
+	}
+	return &sx{atom: s[st:*i]}
+}
+
+func valOfSx(n *sx) *val {
+	if n == nil || len(n.list) == 0 {
+		return nil
+	}
+	arg := func() string {
+		if len(n.list) > 1 && n.list[1].isStr {
+			return string(n.list[1].str)
+		}
+		return ""
+	}
+	switch n.list[0].atom {
+	case "null":
+		return &val{k: kNull}
+	case "bool":
+		return &val{k: kBool, b: len(n.list) > 1 && n.list[1].atom == "t"}
+	case "int":
+		return &val{k: kInt, raw: arg()}
+	case "float":
+		return &val{k: kFloat, raw: arg()}
+	case "str":
+		return &val{k: kStr, raw: arg()}
+	case "block":
+		return &val{k: kBlock, raw: arg()}
+	case "enum":
+		return &val{k: kEnum, raw: arg()}
+	case "var":
+		return &val{k: kVar, raw: arg()}
+	case "list":
+		v := &val{k: kList}
+		for _, c := range n.list[1:] {
+			x := valOfSx(c)
+			if x == nil {
+				return nil
+			}
+			v.items = append(v.items, x)
+		}
+		return v
+	case "obj":
+		v := &val{k: kObj}
+		for _, c := range n.list[1:] {
+			if len(c.list) != 2 || !c.list[0].isStr {
+				return nil
+			}
+			x := valOfSx(c.list[1])
+			if x == nil {
+				return nil
+			}
+			v.fields = append(v.fields, field{string(c.list[0].str), x})
+		}
+		return v
+	}
+	return nil
+}
+
+func bindingsOf(cv string) []varBinding {
+	var bs []varBinding
+	if ms, ok := splitObject([]byte(cv)); ok {
+		for _, m := range ms {
+			st := 2
+			if string(m.raw) == "null" {
+				st = 1
+			}
+			bs = append(bs, varBinding{name: m.key, state: st, json: string(m.raw)})
+		}
+	}
+	return bs
+}
+
+// corpus lines (TAB separated; the value is an S-expression as in the case files, the client
+// variables a Go-quoted string):
+//
+//	lit   <value>  "<client variables>"
+//	dflt  <wraps>  <default value>  "<client variables>"
+//	raw   "<literal source>"
+func (im *impl) corpusLine(r *common.Rand, line string) (string, bool) {
 	parts := strings.Split(line, "\t")
 	unq := func(s string) string {
 		var out string
@@ -1035,26 +1182,31 @@ func (im *impl) corpusLine(line string) (string, bool) {
 		if len(parts) < 3 {
 			return "", false
 		}
-		lit, cv := unq(parts[1]), unq(parts[2])
-		decl := ""
-		if strings.Contains(lit, "$v0") {
-			decl = "($v0: Any)"
+		i := 0
+		v := valOfSx(parseSx(parts[1], &i))
+		if v == nil {
+			return "", false
 		}
-		q := "query" + decl + " { f(a: " + lit + ") }"
-		return common.L("raw", common.L("src", common.QS(q)), im.level1(q, cv), im.level2(q, cv), im.level3(q, cv)), true
+		cv := unq(parts[2])
+		return im.litCaseCV(r, v, cv, bindingsOf(cv), true), true
 	case "dflt":
 		if len(parts) < 4 {
 			return "", false
 		}
-		ty, lit, cv := unq(parts[1]), unq(parts[2]), unq(parts[3])
-		wraps := strings.Count(ty, "[")
-		q := "query($v0: " + ty + " = " + lit + ") { f(a: $v0) }"
-		if wraps > 0 {
-			q = "query($v0: " + ty + " = " + lit + ") { f(la: $v0) }"
+		i := 0
+		v := valOfSx(parseSx(parts[2], &i))
+		if v == nil {
+			return "", false
 		}
-		// the default literal is re-parsed by the driver from level 2's report; give the source tree via level 1 of a probe query
-		probe := "query { f(a: " + lit + ") }"
-		return common.L("dfltraw", common.I(wraps), common.L("cv", common.QS(cv)), common.L("src", common.QS(q)), im.level1(probe, ""), im.level2(q, cv), im.level3(q, cv)), true
+		wraps := 0
+		fmt.Sscan(parts[1], &wraps)
+		cv := unq(parts[3])
+		return im.dfltCaseCV(r, wraps, v, cv, bindingsOf(cv)), true
+	case "raw":
+		if len(parts) < 2 {
+			return "", false
+		}
+		return im.rawCase(unq(parts[1])), true
 	}
 	return "", false
 }
@@ -1091,6 +1243,7 @@ func main() {
 			}
 		}
 	case "corpus":
+		r := common.NewRand(1)
 		f, err := os.Open(a["in"])
 		if err != nil {
 			return
@@ -1103,7 +1256,7 @@ func main() {
 			if strings.HasPrefix(line, "#") || strings.TrimSpace(line) == "" {
 				continue
 			}
-			if s, ok := im.corpusLine(line); ok {
+			if s, ok := im.corpusLine(r, line); ok {
 				out.Line(s)
 			} else {
 				fmt.Fprintln(os.Stderr, "bad corpus line:", line)
